@@ -61,7 +61,7 @@ PARTIAL = [
     'correspondence + oracle on small exact inputs',
     'natural_breaks: that classification by `first break >= value` reproduces the back-tracked partition (i.e. that an optimal cut never '
     'separates equal values) is not proved; the oracle checks the SSD of the classes the breaks induce against the exact minimum',
-    'quantile bin construction: proved for the exact-rational model of linspace/np.percentile(linear)/np.unique (Quantile.v, 4 theorems); the float '
+    'quantile bin construction: proved for the exact-rational model of linspace/np.percentile(linear)/np.unique (Quantile.v, 5 theorems); the float '
     'rounding of the real cuts (an ulp either side of the exact cut, which can leave two equal cuts un-merged) is not modelled — the captured '
     'cuts are compared with the model\'s up to a stated tolerance and classes only off the cuts',
     'equal_interval bin construction: exact band theorem (ei_cuts); the float arange cuts are compared by the oracle only',
